@@ -46,7 +46,7 @@ def main(tier):
     json.dump({'chunk': 25, 'recs': recs}, open(rf, 'w'))
     r = V.tlc(os.path.join(LC.SP, 'Pins.tla'), os.path.join(LC.SP, 'Pins.cfg'), env={'PINRECS': rf}, timeout=3000, cont=True, mem='16g')
     ev.add_tlc('Pins: %d snapshots of %d executions' % (len(recs), len(complete)), r)
-    nontriv = sum(int(m.group(2)) for m in re.finditer(r'<<"STAT", "pins", (\d+), (\d+)>>', r.out))
+    nontriv = sum(v[0] for v in V.stat(r.out, 'pins'))
     for inv, st in V.violating_states(r):
         for (i, t) in st.get('bad', []):
             hi, op = meta[i - 1]
